@@ -215,3 +215,17 @@ class build_up_fixed_source_string:
         return (0 <= _i1 < len(source_file_slices) and source_slice == source_file_slices[_i1]
                 and str_buff == built(source_file_slices, source_patches, raw_source_string, _i1)
                 and all(source_patches[m].source_slice != source_slice for m in range(0, _i2)))
+
+MUTANTS = [
+    ("conflict_le", "sqlfluff/core/linter/patch.py", "return max(first_start, second_start) < min(first_stop, second_stop)", "return max(first_start, second_start) < min(first_stop, second_stop) - 1"),
+    ("conflict_same_range_ignored", "sqlfluff/core/linter/patch.py", "        return first.fixed_raw != second.fixed_raw\n", "        return False\n"),
+    ("merge_skips_conflict_check", "sqlfluff/core/linter/patch.py", "if any(_patches_conflict(existing, patch) for existing in merged_patches):", "if any(_patches_conflict(existing, patch) for existing in merged_patches[-1:]):"),
+    ("merge_no_dedupe", "sqlfluff/core/linter/patch.py", "        if dedupe_tuple in dedupe_buffer:\n            continue\n\n        if any(", "        if False:\n            continue\n\n        if any("),
+    ("merge_sort_by_stop", "sqlfluff/core/linter/patch.py", "key=lambda patch: (patch.source_slice.start, patch.source_slice.stop),", "key=lambda patch: (patch.source_slice.stop, patch.source_slice.start),"),
+    ("slicer_no_skip", "sqlfluff/core/linter/linted_file.py", "            if patch.source_slice.start < source_idx:  # pragma: no cover", "            if False:"),
+    ("slicer_gap_off", "sqlfluff/core/linter/linted_file.py", "                slice_buff.append(slice(source_idx, patch.source_slice.start))", "                slice_buff.append(slice(source_idx, patch.source_slice.start - 1))"),
+    ("slicer_tail_missing", "sqlfluff/core/linter/linted_file.py", "        if source_idx < len(raw_source_string):\n            slice_buff.append", "        if source_idx < len(raw_source_string) - 1:\n            slice_buff.append"),
+    ("slicer_keep_so_dup", "sqlfluff/core/linter/linted_file.py", "                # If it does, remove it so that we don't duplicate it.\n                source_only_slices.pop(0)", "                # If it does, remove it so that we don't duplicate it.\n                pass"),
+    ("builder_last_match", "sqlfluff/core/linter/linted_file.py", "                    str_buff += patch.fixed_raw\n                    break", "                    str_buff += patch.fixed_raw"),
+    ("builder_uses_source_str", "sqlfluff/core/linter/linted_file.py", "                    str_buff += patch.fixed_raw\n", "                    str_buff += patch.source_str\n"),
+]
